@@ -141,7 +141,8 @@ class Harness:
         self.meta = meta  # template name, kind, bounds, ... (evidence + replay)
         self.stubs = list(stubs)
         self.unwindset = unwindset or {}  # {(fn substring, loop idx): bound}
-        self.timeout = timeout
+        # VERIF_TIMEOUT_SCALE: development aid for measuring harnesses beyond their cap
+        self.timeout = int(timeout * float(os.environ.get("VERIF_TIMEOUT_SCALE", "1")))
         self.mem_gb = mem_gb
         self.covers_required = covers_required
         self.functions = list(functions)
@@ -162,12 +163,10 @@ class Harness:
         return "%s\npub fn %s() {\n%s\n}\n" % ("\n".join(attrs), self.name, self.body)
 
 
+# memchr itself is replaced by its executable contract at crate level
+# (harness/Cargo.toml [patch]); the only function stub a prefilter harness
+# still needs keeps the packed searcher out of the dyn-dispatch exploration.
 STUB_PF = [
-    ("memchr::memchr::memchr", "crate::stubs::memchr1"),
-    ("memchr::memchr::memchr2", "crate::stubs::memchr2"),
-    ("memchr::memchr::memchr3", "crate::stubs::memchr3"),
-    ("core::arch::x86_64::__cpuid_count", "crate::stubs::cpuid_stub"),
-    ("memchr::memmem::Finder::find", "crate::stubs::memmem_find"),
     ("aho_corasick::packed::api::Searcher::find_in", "crate::stubs::packed_unused"),
 ]
 
@@ -208,7 +207,7 @@ class Result:
             status=self.status, reason=self.reason, checks=self.n_checks,
             covers=self.n_covers, covers_satisfied=self.n_covers_sat,
             solver_s=self.verif_time, wall_s=round(self.wall or 0, 1), unwind=self.h.unwind,
-            unwindset={"%s.%d" % k: v for k, v in self.h.unwindset.items()},
+            unwindset={"%s.%s" % k: v for k, v in self.h.unwindset.items()},
             stubs=[s[0] for s in self.h.stubs], functions=self.h.functions,
         )
         if self.failed_checks:
@@ -443,9 +442,12 @@ class Run:
                 # literal id of a CPROVER library loop (added at link time, not listed here)
                 out.append("%s.%d:%d" % (pat[1:], idx, bound))
                 continue
-            hits = [i for i in ids if pat in i and i.endswith(".%d" % idx)]
+            if idx is None:  # every loop of the matching function(s)
+                hits = [i for i in ids if pat in i]
+            else:
+                hits = [i for i in ids if pat in i and i.endswith(".%d" % idx)]
             if not hits:
-                raise Inconclusive("unwindset: no loop matches %r.%d in harness %s" % (pat, idx, h.name))
+                raise Inconclusive("unwindset: no loop matches %r.%s in harness %s" % (pat, idx, h.name))
             for i in hits:
                 out.append("%s:%d" % (i, bound))
         return out
